@@ -455,7 +455,7 @@ addendum('C01', 'R8 = C09.R7 + C09.R8: compared streams are the binary pipes '
          'candidate file have provably distinct names.')
 addendum('C02', 'R7 = C14.R6 (toggles written only by option actions and '
          'detection), R8 = C12.R5 (the candidate-enumerating walks visit '
-         'every node); R6 also covers ddmin (C16.R9).')
+         'every node).')
 addendum('C03', 'the task index advances on exception paths too; R9 = '
          'C16.R8 (sort inference memoised for every result).')
 addendum('C04', 'the containment handler does not render the guarded '
@@ -495,6 +495,5 @@ addendum('C15', 'R8: is_piped_symbol / is_string_const are first/last '
 addendum('C16', 'R8 memo transparency of get_sort; R9 tables rebuilt after '
          'every ddmin adoption before the next task is generated.')
 addendum('C18', 'set-returning functions make their callers\' iterations '
-         'order-sensitive consumptions (R1, interprocedural); R6 = default '
-         'time limits of C10.R4; module/class-level pid values may only be '
-         'compared for equality.')
+         'order-sensitive consumptions (R1, interprocedural); module/'
+         'class-level pid values may only be compared for equality.')
